@@ -73,7 +73,7 @@ Record params := mkP {
   hw : Z;                          (* adj.outbuf_high_watermark *)
   sb : Z;                          (* adj.send_bytes *)
   look : nat;                      (* adj.channel_request_lookahead *)
-  progs : list (list Z * bool);    (* per accepted request: write sizes, close_on_finish *)
+  progs : list (list Z * bool);    (* per accepted request: write sizes (a negative entry counts as 0), close_on_finish *)
   residue_ok : bool                (* may a closed outbuf still report bytes? *)
 }.
 
@@ -421,7 +421,7 @@ Definition step_w (p : params) (s : state) (r : sendres) : option (state * list 
   | WIdle =>
     if queued s then
       let pr := nth (cur s) (progs p) ([], true) in
-      Some (set_wk WSvcConn (set_wclose (snd pr) (set_wq (fst pr) (set_queued false s))), [Lb TW KStart])
+      Some (set_wk WSvcConn (set_wclose (snd pr) (set_wq (map (Z.max 0) (fst pr)) (set_queued false s))), [Lb TW KStart])
     else None
   | WSvcConn => Some ((if connected s then next_write s else set_wk WCloseAcq s), [Lb TW KRconn])
   | WWrConn =>
